@@ -8,7 +8,7 @@ import gen
 from core import derived_rng
 from util import call
 
-REQUIRED_THEOREMS = ['Usid.C13.fresh_monotone', 'Usid.C13.exactly_that_base', 'Usid.C13.history_all_succeed',
+REQUIRED_THEOREMS = ['Usid.C13.parents_independent', 'Usid.C13.fresh_monotone', 'Usid.C13.exactly_that_base', 'Usid.C13.history_all_succeed',
                      'Usid.C13.lookup_exact', 'Usid.C13.provenance']
 RULE = ('[also: histories addressed in turn to TWO parent groups of one file] [also: tool names with a trailing underscore / surrounding blanks, indices at the 009/099/999 boundaries, a dataset at a results-style name, results created for like-named datasets of the parent group itself (decoys), the source handed over as a USIDataset, a File object as parent] histories (quick: length <= 8 random; thorough: also all histories of length <= 3 over a reduced vocabulary) of '
         'create_indexed_group / create_results_group (default placement, an explicit parent group elsewhere in the same file, '
@@ -332,16 +332,13 @@ def nontrivial(inp, obs):
 
 def model_requests_obs(inp, obs):
     if inp.get('kind') == 'two':
-        # the model is run once per parent on the sub-history addressed to it
-        reqs = []
-        for k in (0, 1):
-            ops = [{'op': 'indexed', 'base': op['base']} if op['op'] == 'indexed' else
-                   {'op': 'results', 'dset': op['dset'], 'tool': op['tool'].strip(), 'same': False, 'sid': '/P/' + op['dset']}
-                   for op in inp['ops'] if op['parent'] == k]
-            reqs.append({'op': 'grp.run', 'initial': [{'name': n, 'kind': kd} for n, kd in inp['initial'][k]], 'ops': ops,
-                         'queries': [{'dset': d, 'tool': t.strip(), 'same': False, 'sid': '/P/' + d} for d in DSETS for t in TOOLS],
-                         'sources': []})
-        return reqs
+        # the file-level model serves the interleaved history itself (theorem parents_independent: each parent sees
+        # exactly its own sub-history)
+        ops = [dict({'op': 'indexed', 'base': op['base']} if op['op'] == 'indexed' else
+                    {'op': 'results', 'dset': op['dset'], 'tool': op['tool'].strip(), 'same': True, 'sid': '/P/' + op['dset']},
+                    parent=op['parent']) for op in inp['ops']]
+        return [{'op': 'grp.file', 'parents': [[{'name': n, 'kind': kd} for n, kd in inp['initial'][k]] for k in (0, 1)],
+                 'ops': ops, 'queries': [{'dset': d, 'tool': t.strip(), 'sid': '/P/' + d} for d in DSETS for t in TOOLS]}]
     init = [{'name': n, 'kind': k} for n, k in inp['initial']]
     if inp['same'] and (not inp.get('sibling') or inp.get('decoy')):
         init = init + [{'name': d, 'kind': 'dataset'} for d in DSETS]
@@ -353,15 +350,15 @@ def model_requests_obs(inp, obs):
 def model_compare(inp, obs, resp):
     if inp.get('kind') == 'two':
         notes = []
+        r = resp[0]
         keys = ['%s|%s' % (d, t) for d in DSETS for t in TOOLS]
+        for i, (op, a, b) in enumerate(zip(inp['ops'], obs['outs'], r['outs'])):
+            if b['parent'] != op['parent'] or ('err' in a) != ('err' in b['out']) or ('ok' in a and a['ok'] != b['out'].get('ok')):
+                notes.append('request %d (parent %d): impl %s model %s' % (i, op['parent'], a.get('ok', a.get('err')), b))
         for k in (0, 1):
-            mine = [rec for op, rec in zip(inp['ops'], obs['outs']) if op['parent'] == k]
-            for a, b in zip(mine, resp[k]['outs']):
-                if ('err' in a) != ('err' in b) or ('ok' in a and a['ok'] != b.get('ok')):
-                    notes.append('parent %d: op outcome differs: impl %s model %s' % (k, a.get('ok', a.get('err')), b))
-            if sorted(resp[k]['listing']) != obs['listing'][k]:
-                notes.append('parent %d: listing differs: impl %s model %s' % (k, obs['listing'][k], sorted(resp[k]['listing'])))
-            for key, m in zip(keys, resp[k]['find']):
+            if sorted(r['listing'][k]) != obs['listing'][k]:
+                notes.append('parent %d: listing differs: impl %s model %s' % (k, obs['listing'][k], sorted(r['listing'][k])))
+            for key, m in zip(keys, r['find'][k]):
                 if obs['find'][k][key] != sorted(m):
                     notes.append('parent %d: find_results_groups(%s) differs: impl %s model %s' % (k, key, obs['find'][k][key], sorted(m)))
         return notes
